@@ -18,6 +18,33 @@ pub struct Oracle<'a> {
     /// proposition name -> variable index
     pub props: &'a HashMap<String, usize>,
     pub labels: &'a Labels,
+    /// Results of temporal and hybrid sub-formulae, keyed by (node, values of the node's *free*
+    /// variables): the value of a sub-formula depends on nothing else, so a closed sub-formula under
+    /// k quantifiers is evaluated once instead of states^k times.  Purely a time saver: `plain()`
+    /// switches it off, and a unit test compares both on random formulae.
+    pub memo: Memo,
+}
+
+#[derive(Default)]
+pub struct Memo {
+    enabled: std::cell::Cell<bool>,
+    results: std::cell::RefCell<HashMap<(usize, Vec<usize>), StateSet>>,
+    free_vars: std::cell::RefCell<HashMap<usize, Vec<String>>>,
+}
+
+impl Memo {
+    pub fn on() -> Memo {
+        let m = Memo::default();
+        m.enabled.set(true);
+        m
+    }
+    pub fn off() -> Memo {
+        Memo::default()
+    }
+    fn clear(&self) {
+        self.results.borrow_mut().clear();
+        self.free_vars.borrow_mut().clear();
+    }
 }
 
 fn lfp(mut y: StateSet, step: impl Fn(StateSet) -> StateSet) -> StateSet {
@@ -53,10 +80,48 @@ impl Oracle<'_> {
     }
 
     pub fn eval_closed(&self, f: &F) -> StateSet {
-        self.eval(f, &mut vec![])
+        // node addresses identify sub-formulae only while this tree is borrowed
+        self.memo.clear();
+        let out = self.eval(f, &mut vec![]);
+        self.memo.clear();
+        out
     }
 
     pub fn eval(&self, f: &F, env: &mut Vec<(String, usize)>) -> StateSet {
+        let worth = self.memo.enabled.get()
+            && match f {
+                F::Un(op, _) => *op != UnOp::Not,
+                F::Bin(op, _, _) => op.is_temporal(),
+                F::Hyb(..) => true,
+                _ => false,
+            };
+        if !worth {
+            return self.eval_node(f, env);
+        }
+        let node = f as *const F as usize;
+        let key_vals: Vec<usize> = {
+            let mut fvs = self.memo.free_vars.borrow_mut();
+            let fv = fvs.entry(node).or_insert_with(|| f.free_vars().into_iter().collect());
+            fv.iter()
+                .map(|v| {
+                    env.iter()
+                        .rev()
+                        .find(|(n, _)| n == v)
+                        .unwrap_or_else(|| panic!("oracle: free variable {v}"))
+                        .1
+                })
+                .collect()
+        };
+        let key = (node, key_vals);
+        if let Some(r) = self.memo.results.borrow().get(&key) {
+            return *r;
+        }
+        let r = self.eval_node(f, env);
+        self.memo.results.borrow_mut().insert(key, r);
+        r
+    }
+
+    fn eval_node(&self, f: &F, env: &mut Vec<(String, usize)>) -> StateSet {
         let ts = self.ts;
         let all = ts.all();
         match f {
@@ -165,8 +230,12 @@ mod tests {
             ts: &ts,
             props: &props,
             labels: &labels,
+            memo: Memo::on(),
         };
-        o.eval_closed(&parse(formula, false).unwrap())
+        let f = parse(formula, false).unwrap();
+        let plain = Oracle { ts: &ts, props: &props, labels: &labels, memo: Memo::off() };
+        assert_eq!(o.eval_closed(&f), plain.eval_closed(&f));
+        o.eval_closed(&f)
     }
 
     #[test]
@@ -197,5 +266,30 @@ mod tests {
         assert_eq!(eval_on(two, 0, "a EU b"), 0b1110);
         assert_eq!(eval_on(two, 0, "EG ~b"), 0b0011);
         assert_eq!(eval_on(two, 0, "AG ~b"), 0b0001);
+    }
+
+    /// memoised and plain evaluation agree on generated cases (all colours sampled by the checks)
+    #[test]
+    fn memo_is_transparent() {
+        use crate::gen::FCfg;
+        use crate::sem::*;
+        let raws = crate::bundled::sample_stream(&raw_sem(4, 1..=1, 5, 20), 77, 3000);
+        let mut compared = 0;
+        for raw in &raws {
+            let Ok((case, fs, net)) = resolve_sem(raw, FCfg::EXTENDED_WEAK) else { continue };
+            if fs[0].quant_depth() > 4 {
+                continue;
+            }
+            let props = prop_index(&net);
+            for c in sample_colours(&net, 4) {
+                let ts = net.ts(c);
+                let labels = labels_for(&case.context, c);
+                let a = Oracle { ts: &ts, props: &props, labels: &labels, memo: Memo::on() }.eval_closed(&fs[0]);
+                let b = Oracle { ts: &ts, props: &props, labels: &labels, memo: Memo::off() }.eval_closed(&fs[0]);
+                assert_eq!(a, b, "{} on {}", case.formulas[0], case.aeon);
+                compared += 1;
+            }
+        }
+        assert!(compared > 2000);
     }
 }
